@@ -494,6 +494,23 @@ pub mod verif_hooks {
         }
     }
 
+    /// (skip_metadata, cached metadata used, result metadata id sent) decided by a connection for a statement.
+    pub fn metadata_params(
+        ext: bool,
+        use_cached: bool,
+        col_count: usize,
+        id: Option<Vec<u8>>,
+    ) -> (bool, bool, Option<Vec<u8>>) {
+        verif_connection::metadata_params(ext, use_cached, col_count, id)
+    }
+    /// The statement's current result metadata (column count, id) after a ROWS response carrying `new`.
+    pub fn metadata_after_rows(
+        current: (usize, Option<Vec<u8>>),
+        new: (usize, Option<Vec<u8>>),
+    ) -> (usize, Option<Vec<u8>>) {
+        verif_connection::metadata_after_rows(current, new)
+    }
+
     pub fn verify_keyspace_name(
         name: String,
         case_sensitive: bool,
